@@ -80,7 +80,9 @@ impl<K: KeyT, V: ValT> MapWorld<K, V> {
                     if faulty {
                         vio!(self, "serde/accepted-truncated", "deserialising JSON cut at byte {cut} of {} succeeded", bytes.len());
                     }
-                    if got != want || !eq {
+                    // `==` is false when a value unequal to itself is stored
+                    let nan = V::HAS_NAN && want.iter().any(|p| p.1 == crate::elem::NAN_VAL);
+                    if got != want || eq == nan {
                         vio!(self, "serde/round-trip", "deserialize(serialize(map)) holds {} entries, the map {} (== says {eq})", got.len(), want.len());
                     }
                 }
